@@ -39,6 +39,12 @@ func verifC16SplitSize() int64    { return c16SplitSize }
 func verifC16SplitOutDir() string { return "/memfs/out" }
 func verifC16SplitMeta() string   { return "/memfs/out/metadata.csv" }
 
+// verifC16FirstFileNum is the initial value of split-car's piece counter (overlay rewrite of its
+// declaration; 0 in the real code): numbering that starts just below 10 / 100 makes a split into
+// two or three pieces cross a decimal digit boundary of the piece number (epoch-E-9, epoch-E-10),
+// which otherwise needs a CAR of ten blocks or more.
+func verifC16FirstFileNum() int { return verifParam("first_file_num", 0) }
+
 type c16CSVWriter struct{}
 
 func verifC16CSV(w io.Writer) *c16CSVWriter { return &c16CSVWriter{} }
@@ -263,7 +269,7 @@ func VerifC16Split() {
 	verifAssert(len(c16CSVRows) == len(m.CarPieces)+1, "C16.split: one CSV row per piece expected")
 	for i, p := range m.CarPieces {
 		file := verifMemFileBytes(p.Name)
-		verifAssert(p.Name == fmt.Sprintf("/memfs/out/epoch-7-%d.car", i+1), "C16.split: piece file name")
+		verifAssert(p.Name == fmt.Sprintf("/memfs/out/epoch-7-%d.car", verifC16FirstFileNum()+i+1), "C16.split: pieces are not listed in the metadata in the order in which they were cut (file name / piece number)")
 		verifAssert(p.HeaderSize == uint64(hdrBytes.Len()), "C16.split: piece header size in the metadata is wrong")
 		verifAssert(len(file) >= hdrBytes.Len() && bytes.Equal(file[:hdrBytes.Len()], hdrBytes.Bytes()), "C16.split: piece does not start with the placeholder CAR header")
 		end := int(p.HeaderSize + p.ContentSize)
@@ -313,6 +319,9 @@ func VerifC16Split() {
 		}
 		if families > 1 {
 			verifAssert(p.HeaderSize+p.ContentSize <= uint64(c16SplitSize), "C16.split: a piece holding several blocks exceeds the target size (in accounted bytes)")
+		}
+		if len(c16CSVRows) == len(m.CarPieces)+1 {
+			verifAssert(c16CSVRows[i+1][0] == fmt.Sprintf("epoch-7-%d.car", verifC16FirstFileNum()+i+1), "C16.split: CSV rows are not in the order in which the pieces were cut")
 		}
 		if len(c16CSVRows) == len(m.CarPieces)+1 && c16CSVRows[i+1][4] != fmt.Sprint(len(file)) {
 			csvOK = false
